@@ -81,7 +81,7 @@ def fmt_int(k: int) -> str:
 
 # --------------------------------------------------------------------------- state
 class St:
-    __slots__ = ("fields", "locs", "dfrs", "ghost", "active", "alias", "log", "exit", "pre", "frames", "nid")
+    __slots__ = ("fields", "locs", "dfrs", "ghost", "active", "alias", "log", "exit", "pre", "frames", "nid", "lendelta", "epoch")
 
     def __init__(self):
         self.fields: Dict[str, tuple] = {}
@@ -95,6 +95,8 @@ class St:
         self.pre: str = ""
         self.frames: tuple = ()
         self.nid = 0
+        self.lendelta: Dict[str, Optional[int]] = {}
+        self.epoch = 0
 
     def copy(self) -> "St":
         s = St()
@@ -109,7 +111,22 @@ class St:
         s.pre = self.pre
         s.frames = self.frames
         s.nid = self.nid
+        s.lendelta = dict(self.lendelta)
+        s.epoch = self.epoch
         return s
+
+    def key(self):
+        """Identity of the abstract state at a loop head (history and record numbers ignored)."""
+        def val(v):
+            if v[0] == "dfr":
+                r = self.dfrs[v[1]]
+                return ("dfr", r["origin"], r["fired"] is not None, r["where"], r["stale"], r["pristine"])
+            if v[0] == "func":
+                return ("func", id(v[1]))
+            return v
+        return (tuple(sorted((k, val(v)) for k, v in self.fields.items())), tuple(sorted((k, repr(v)) for k, v in self.ghost.items())),
+                tuple(sorted((k, val(v)) for k, v in self.locs.items())), tuple(sorted(repr(k) + str(b) for k, b in self.active.items())),
+                tuple(sorted((k, repr(v)) for k, v in self.lendelta.items())), self.epoch, self.exit is not None)
 
     def add(self, *entry):
         self.log = self.log + (entry,)
@@ -208,8 +225,47 @@ def _pure(e: ast.AST) -> bool:
     return True
 
 
+class _Bind(ast.stmt):
+    """Pseudo-statement used by for-loops: binds the loop variable through a Python callback."""
+    _fields = ()
+
+    def __init__(self, fn):
+        super().__init__()
+        self.fn = fn
+
+
+class _LenShift(ast.NodeTransformer):
+    """Rewrite ``len(self.X)`` into the length *at entry* (``len(self.X) + k``): symbolic decisions then talk about the
+    pre-state even when they are evaluated after the list was appended to / popped from."""
+
+    def __init__(self, st: "St"):
+        self.st = st
+
+    def visit_Call(self, node):
+        self.generic_visit(node)
+        if isinstance(node.func, ast.Name) and node.func.id == "len" and len(node.args) == 1:
+            a = node.args[0]
+            if isinstance(a, ast.Attribute) and isinstance(a.value, ast.Name) and a.value.id == "self" and a.attr in self.st.lendelta:
+                d = self.st.lendelta[a.attr]
+                ep = self.st.epoch
+                if d is None:
+                    return ast.Name(id=f"len_{a.attr}_unknown", ctx=ast.Load())
+                base = node if ep == 0 else ast.Name(id=f"len_{a.attr}_after_callout{ep}", ctx=ast.Load())
+                if d == 0:
+                    return base
+                return ast.BinOp(left=base, op=ast.Add() if d > 0 else ast.Sub(), right=ast.Constant(value=abs(d)))
+        return node
+
+
+_PURE_FUNCS = {"isinstance", "bool", "int", "str", "repr", "id", "hasattr", "type", "abs", "min", "max", "float", "callable", "getattr"}
+_CATCH_ALL = {"Exception", "BaseException", None}
+_EXC_PARENTS = {"IndexError": {"LookupError"}, "KeyError": {"LookupError"}, "AlreadyCalledError": set(), "ValueError": set(),
+                "TypeError": set()}
+
+
 class Interp:
     MAX_DEPTH = 4
+    MAX_LOOP_STATES = 600
 
     def __init__(self, mod, cls: ast.ClassDef, spec: Spec, modname: str):
         self.mod = mod
@@ -218,9 +274,11 @@ class Interp:
         self.modname = modname
         self.problems: List[Problem] = []
         self.checked: Dict[Tuple[str, str, object], ast.AST] = {}
+        self.notes: List[str] = []
         self._qual: List[str] = []
         self._stmt: List[ast.AST] = []
         self._depth = 0
+        self._catch: List[set] = []       # exception names caught by the enclosing try statements
 
     # ---- bookkeeping ---------------------------------------------------------------------------
     @property
@@ -241,11 +299,25 @@ class Interp:
     def qualname(self, cls, func) -> str:
         return f"{self.modname}.{cls.name}.{func.name}"
 
+    def caught(self, name: str) -> bool:
+        fam = {name} | _EXC_PARENTS.get(name, set())
+        return any((fr & _CATCH_ALL) or (fr & fam) for fr in self._catch)
+
+    def throw(self, st: St, name: str, rule: str, msg: str, node=None) -> List[St]:
+        """An operation fails with exception ``name``: a path into the enclosing handler when one catches it,
+        otherwise a reported problem (the path ends)."""
+        if self.caught(name):
+            st.exit = ("raise", name, self.site(node))
+            return [st]
+        self.problem(rule, st, msg, node)
+        return []
+
     # ---- entry ---------------------------------------------------------------------------------
     def run(self, func: ast.FunctionDef, pre: St, args: Dict[str, tuple], owner: Optional[ast.ClassDef] = None) -> List[St]:
         owner = owner or self.cls
         st = pre.copy()
         st.locs = dict(args)
+        st.lendelta = {k: 0 for k, v in st.fields.items() if v[0] == "list"}
         self._qual.append(self.qualname(owner, func))
         try:
             outs = self.block(func.body, [st])
@@ -254,6 +326,8 @@ class Interp:
         for s in outs:
             if s.exit is None:
                 s.exit = ("return", ("none",), None)
+            elif s.exit[0] in ("break", "continue"):
+                raise Unsupported(f"{self.qualname(owner, func)}: {s.exit[0]} outside a loop")
         return outs
 
     # ---- statements -----------------------------------------------------------------------------
@@ -277,7 +351,10 @@ class Interp:
             self._stmt.pop()
 
     def _stmt_inner(self, s, st: St) -> List[St]:
-        if isinstance(s, ast.Pass):
+        if isinstance(s, _Bind):
+            s.fn(st)
+            return [st]
+        if isinstance(s, (ast.Pass, ast.Import, ast.ImportFrom, ast.Global, ast.Nonlocal)):
             return [st]
         if isinstance(s, ast.Expr):
             if isinstance(s.value, ast.Constant):
@@ -294,7 +371,7 @@ class Interp:
             return self.assign(s.targets, s.value, st)
         if isinstance(s, ast.AugAssign):
             if not isinstance(s.op, (ast.Add, ast.Sub)):
-                raise Unsupported(f"{self.qual}: augmented assignment {src(s)}")
+                return self.assign_value([s.target], ("top",), s.value, st)
             load = clone(s.target)
             for n in ast.walk(load):
                 if hasattr(n, "ctx"):
@@ -309,6 +386,33 @@ class Interp:
             out += self.block(s.body, t) if t else []
             out += (self.block(s.orelse, f) if s.orelse else f) if f else []
             return out
+        if isinstance(s, ast.While):
+            return self.loop(s.test, s.body, s.orelse, st)
+        if isinstance(s, (ast.For, ast.AsyncFor)):
+            return self.for_loop(s, st)
+        if isinstance(s, ast.Break):
+            st.exit = ("break", None, s)
+            return [st]
+        if isinstance(s, ast.Continue):
+            st.exit = ("continue", None, s)
+            return [st]
+        if isinstance(s, ast.Try):
+            return self.try_stmt(s, st)
+        if isinstance(s, (ast.With, ast.AsyncWith)):
+            states = [st]
+            for it in s.items:
+                nxt = []
+                for cur in states:
+                    for v, r in self.eval(it.context_expr, cur):
+                        if r.exit:
+                            nxt.append(r)
+                            continue
+                        if it.optional_vars is not None:
+                            self.store(it.optional_vars, ("top",), r, it.context_expr)
+                        nxt.append(r)
+                states = nxt
+            live = [x for x in states if not x.exit]
+            return [x for x in states if x.exit] + self.block(s.body, live)
         if isinstance(s, ast.Assert):
             t, f, ex = self.branch(s.test, st)
             self.mark("invariant/assert", s)
@@ -328,7 +432,8 @@ class Interp:
             return out
         if isinstance(s, ast.Raise):
             if s.exc is None:
-                raise Unsupported(f"{self.qual}: bare raise")
+                st.exit = ("raise", "?", s)
+                return [st]
             out = []
             for v, r in self.eval(s.exc, st):
                 if not r.exit:
@@ -345,6 +450,123 @@ class Interp:
             return out
         raise Unsupported(f"{self.qual}: statement not modelled: {src(s)[:80]}")
 
+    # ---- loops (fixpoint over the finite abstract state space) --------------------------------------
+    def loop(self, test, body, orelse, st: St, nondet_first: Optional[bool] = None) -> List[St]:
+        """``while test: body`` - abstract states reaching the loop head are explored until no new one appears
+        (lengths are widened to 'at least 3', so the space is finite).  test=None: non-deterministic exit."""
+        seen, work, exits, brk, done = set(), [st], [], [], []
+        first = True
+        while work:
+            cur = work.pop()
+            k = cur.key()
+            if k in seen:
+                continue
+            seen.add(k)
+            if len(seen) > self.MAX_LOOP_STATES:
+                raise Unsupported(f"{self.qual}: loop does not reach a fixpoint in the abstract domain")
+            if test is not None:
+                t, f, ex = self.branch(test, cur)
+                done += ex
+            else:
+                if first and nondet_first is True:
+                    t, f = [cur], []
+                else:
+                    t, f = [cur.copy()], [cur]
+            first = False
+            exits += f
+            for r in self.block(body, t):
+                if r.exit is None or r.exit[0] == "continue":
+                    r.exit = None
+                    work.append(r)
+                elif r.exit[0] == "break":
+                    r.exit = None
+                    brk.append(r)
+                else:
+                    done.append(r)
+        after = self.block(orelse, exits) if orelse else exits
+        return after + brk + done
+
+    def for_loop(self, s, st: St) -> List[St]:
+        out = []
+        for itv, r in self.eval(s.iter, st):
+            if r.exit:
+                out.append(r)
+                continue
+            if itv[0] == "listref":
+                attr = itv[1]
+                n = r.fields[attr][1]
+                if n == 0:
+                    out += self.block(s.orelse, [r]) if s.orelse else [r]
+                    continue
+
+                def bind(state, attr=attr):
+                    if self.spec.list_elems.get(attr) == "dfr":
+                        v = state.new_dfr(origin=("member", attr), where=attr, pristine=False)
+                    else:
+                        v = ("obj", ("member", attr))
+                    self.store(s.target, v, state, s.iter)
+                body = [_Bind(bind)] + list(s.body)
+                before = r.fields[attr]
+                res = self.loop(None, body, s.orelse, r, nondet_first=True)
+                for x in res:
+                    if x.fields.get(attr) != before and x.epoch == r.epoch:
+                        raise Unsupported(f"{self.qual}: self.{attr} is modified while it is iterated")
+                out += res
+            else:
+                def bind2(state):
+                    self.store(s.target, ("top",), state, s.iter)
+                out += self.loop(None, [_Bind(bind2)] + list(s.body), s.orelse, r)
+        return out
+
+    def try_stmt(self, s: ast.Try, st: St) -> List[St]:
+        names = set()
+        for h in s.handlers:
+            if h.type is None:
+                names.add(None)
+            else:
+                for x in (h.type.elts if isinstance(h.type, ast.Tuple) else [h.type]):
+                    names.add((dotted(x) or "?").split(".")[-1])
+        self._catch.append(names)
+        try:
+            outs = self.block(s.body, [st])
+        finally:
+            self._catch.pop()
+        result = []
+        normal = []
+        for o in outs:
+            if o.exit is None:
+                normal.append(o)
+            elif o.exit[0] == "raise":
+                name = o.exit[1]
+                fam = {name} | _EXC_PARENTS.get(name, set())
+                hit = None
+                for h in s.handlers:
+                    hn = {None} if h.type is None else {(dotted(x) or "?").split(".")[-1] for x in (h.type.elts if isinstance(h.type, ast.Tuple) else [h.type])}
+                    if (hn & _CATCH_ALL) or (hn & fam) or name == "?":
+                        hit = h
+                        break
+                if hit is None:
+                    result.append(o)
+                else:
+                    o.exit = None
+                    if hit.name:
+                        o.locs[hit.name] = ("exc", name)
+                    result += self.block(hit.body, [o])
+            else:
+                result.append(o)
+        if normal:
+            result += self.block(s.orelse, normal) if s.orelse else normal
+        if s.finalbody:
+            fin = []
+            for o in result:
+                saved, o.exit = o.exit, None
+                for r in self.block(s.finalbody, [o]):
+                    if r.exit is None:
+                        r.exit = saved
+                    fin.append(r)
+            result = fin
+        return result
+
     def delete(self, t, st: St) -> List[St]:
         if isinstance(t, ast.Subscript):
             idx = self.const_index(t.slice)
@@ -353,11 +575,37 @@ class Interp:
                 if r.exit:
                     outs.append(r)
                     continue
-                if v[0] != "listref" or idx not in (0, -1):
-                    raise Unsupported(f"{self.qual}: del {src(t)}")
-                outs += [x for _, x in self.list_pop(r, v[1], "first" if idx == 0 else "last", discard=True)]
+                if v[0] == "listref" and idx in (0, -1):
+                    outs += [x for _, x in self.list_pop(r, v[1], "first" if idx == 0 else "last", discard=True)]
+                elif v[0] == "listref":
+                    outs += self.havoc_list(r, v[1], f"del {src(t)}")
+                else:
+                    outs.append(r)
             return outs
+        if isinstance(t, ast.Name):
+            st.locs.pop(t.id, None)
+            return [st]
+        if isinstance(t, ast.Attribute) and isinstance(t.value, ast.Name) and t.value.id == "self":
+            if t.attr in st.fields and st.fields[t.attr][0] == "list":
+                raise Unsupported(f"{self.qual}: del {src(t)}")
+            st.fields[t.attr] = ("top",)
+            return [st]
         raise Unsupported(f"{self.qual}: del {src(t)}")
+
+    def havoc_list(self, st: St, attr: str, what: str) -> List[St]:
+        """An operation on a tracked container that is not modelled precisely: any length afterwards, and the
+        discipline rules see an operation of unknown kind."""
+        outs = []
+        for rec in st.dfrs.values():
+            if rec["where"] == attr:
+                rec["stale"] = True
+        for k in range(0, BIG + 1):
+            s = st.copy()
+            s.fields[attr] = ("list", k)
+            s.lendelta[attr] = None
+            s.add("listop", self.site(), attr, "unknown:" + what, None)
+            outs.append(s)
+        return outs
 
     def assign(self, targets, value, st: St) -> List[St]:
         if len(targets) == 1 and isinstance(targets[0], (ast.Tuple, ast.List)) and isinstance(value, (ast.Tuple, ast.List)) \
@@ -367,6 +615,9 @@ class Interp:
             for e in value.elts:
                 nxt = []
                 for vals, cur in states:
+                    if vals is None:
+                        nxt.append((None, cur))
+                        continue
                     for v, r in self.eval(e, cur):
                         if r.exit:
                             nxt.append((None, r))
@@ -392,14 +643,33 @@ class Interp:
             out.append(r)
         return out
 
+    def assign_value(self, targets, v, rhs, st: St) -> List[St]:
+        for t in targets:
+            self.store(t, v, st, rhs)
+        return [st]
+
+    def drop_decisions_on(self, st: St, word: str):
+        import re
+        pat = re.compile(r"(?<![\w.])" + re.escape(word) + r"(?![\w])")
+        for k in list(st.active):
+            if pat.search(repr(k)):
+                del st.active[k]
+
     def store(self, t, v, st: St, rhs: ast.AST):
+        if isinstance(t, (ast.Tuple, ast.List)):
+            for tt in t.elts:
+                self.store(tt, ("top",), st, rhs)
+            return
+        if isinstance(t, ast.Starred):
+            return self.store(t.value, ("top",), st, rhs)
         if isinstance(t, ast.Name):
             st.locs[t.id] = v
             st.alias.pop(t.id, None)
             for k in [k for k, e in st.alias.items() if t.id in {n.id for n in ast.walk(e) if isinstance(n, ast.Name)}]:
                 st.alias.pop(k)
+            self.drop_decisions_on(st, t.id)
             if _pure(rhs) and not isinstance(rhs, ast.Constant):
-                e = _Subst(st.alias).visit(clone(rhs))
+                e = _Subst(st.alias).visit(_LenShift(st).visit(clone(rhs)))
                 if "self." in src(e) or isinstance(e, ast.Name):
                     st.alias[t.id] = e
             return
@@ -408,19 +678,21 @@ class Interp:
             old = st.fields.get(attr)
             if old is not None and old[0] == "list":
                 # rebinding a tracked container
+                for rec in st.dfrs.values():
+                    if rec["where"] == attr:
+                        rec["where"] = None
+                        rec["origin"] = ("dropped", attr)
                 if v[0] == "newlist":
-                    new = ("list", 0)
                     st.add("listop", self.site(), attr, "rebind-empty", None)
-                    for rec in st.dfrs.values():
-                        if rec["where"] == attr:
-                            rec["where"] = None
-                            rec["origin"] = ("dropped", attr)
-                    st.fields[attr] = new
-                    self.invalidate(st, attr)
+                    st.fields[attr] = ("list", 0)
+                    st.lendelta[attr] = None
+                    return
+                if v == ("listref", attr):
                     return
                 raise Unsupported(f"{self.qual}: tracked container self.{attr} rebound to {src(rhs)}")
             if v[0] == "newlist":
                 v = ("list", 0)
+                st.lendelta[attr] = 0
             delta = None
             if old is not None and old[0] == "int":
                 lf = linform(_Subst(st.alias).visit(clone(rhs)))
@@ -433,6 +705,15 @@ class Interp:
             self.invalidate(st, attr)
             self.spec.on_write(st, attr, old, v, delta)
             return
+        if isinstance(t, ast.Subscript):
+            # store into a container: tracked lists lose their precise shape, anything else is outside the model
+            base = t.value
+            if isinstance(base, ast.Attribute) and isinstance(base.value, ast.Name) and base.value.id == "self" \
+                    and st.fields.get(base.attr, ("x",))[0] == "list":
+                raise Unsupported(f"{self.qual}: element store {src(t)}")
+            return
+        if isinstance(t, ast.Attribute):
+            return  # attribute of some other object: outside the model
         raise Unsupported(f"{self.qual}: assignment target {src(t)}")
 
     def invalidate(self, st: St, attr: str):
@@ -480,7 +761,7 @@ class Interp:
                 continue
             tv = self.truth(v, r)
             if tv is None:
-                t, f = self.decide(("truth", src(_Subst(r.alias).visit(clone(e)))), None, r, e)
+                t, f = self.decide(("truth", src(_Subst(r.alias).visit(_LenShift(r).visit(clone(e))))), None, r, e)
                 trues += t
                 falses += f
             else:
@@ -519,9 +800,11 @@ class Interp:
 
     def compare(self, e: ast.Compare, st: St) -> Tuple[List[St], List[St], List[St]]:
         if len(e.ops) != 1:
-            raise Unsupported(f"{self.qual}: chained comparison {src(e)}")
+            vals = [e.left] + list(e.comparators)
+            parts = [ast.Compare(left=a, ops=[op], comparators=[b]) for a, op, b in zip(vals, e.ops, vals[1:])]
+            return self.branch(ast.BoolOp(op=ast.And(), values=parts), st)
         op = e.ops[0]
-        sub = _Subst(st.alias).visit(clone(e))
+        sub = _Subst(st.alias).visit(_LenShift(st).visit(clone(e)))
         r = self.spec.compare(st, sub)
         if r is not None:
             return ([st], [], []) if r else ([], [st], [])
@@ -535,20 +818,16 @@ class Interp:
                     ex.append(s2)
                     continue
                 res = self.cmp_values(op, lv, rv, s2, e)
-                if res == "kill":
+                if isinstance(res, list):     # the comparison raised
+                    ex += res
                     continue
                 if res is None:
-                    sub2 = _Subst(s2.alias).visit(clone(e))
+                    sub2 = _Subst(s2.alias).visit(_LenShift(s2).visit(clone(e)))
                     key = lincmp(sub2)
                     neg = lincmp(sub2, negate=True)
                     if key is None:
-                        if isinstance(op, (ast.Eq, ast.NotEq)):
-                            base = ("eq", src(sub2.left), src(sub2.comparators[0]))
-                            t, f = self.decide(base, None, s2, e)
-                            if isinstance(op, ast.NotEq):
-                                t, f = f, t
-                        else:
-                            raise Unsupported(f"{self.qual}: comparison {src(e)}")
+                        base = ("cmp", type(op).__name__, src(sub2.left), src(sub2.comparators[0]))
+                        t, f = self.decide(base, None, s2, e)
                     else:
                         t, f = self.decide(key, neg, s2, e)
                     trues += t
@@ -565,29 +844,35 @@ class Interp:
         return None
 
     def cmp_values(self, op, lv, rv, st: St, node):
+        """True / False / None (undecided -> symbolic decision) / list of finished states (it raised)."""
         if isinstance(op, (ast.Is, ast.IsNot, ast.Eq, ast.NotEq)):
             pos = isinstance(op, (ast.Is, ast.Eq))
+            if lv[0] == "top" or rv[0] == "top":
+                return None
             if lv[0] == "none" or rv[0] == "none":
                 same = lv[0] == rv[0]
                 return same if pos else not same
-            if isinstance(op, (ast.Is, ast.IsNot)):
-                if lv[0] == rv[0] == "dfr" or lv[0] == rv[0] == "self":
-                    return (lv == rv) if pos else (lv != rv)
-                raise Unsupported(f"{self.qual}: identity test {src(node)}")
-            # list == []
+            if lv[0] == rv[0] and lv[0] in ("dfr", "self"):
+                return (lv == rv) if pos else (lv != rv)
             for a, b in ((lv, rv), (rv, lv)):
                 if a[0] == "listref" and b[0] == "newlist":
                     empty = st.fields[a[1]][1] == 0
                     return empty if pos else not empty
+            if isinstance(op, (ast.Is, ast.IsNot)):
+                return None
+        if isinstance(op, (ast.In, ast.NotIn)):
+            if lv[0] == "dfr" and rv[0] == "listref":
+                inside = st.dfrs[lv[1]]["where"] == rv[1] and not st.dfrs[lv[1]]["stale"]
+                if st.dfrs[lv[1]]["stale"]:
+                    return None
+                return inside if isinstance(op, ast.In) else not inside
+            return None
         if isinstance(op, (ast.Lt, ast.LtE, ast.Gt, ast.GtE)) and (lv[0] == "none" or rv[0] == "none"):
-            self.problem("type-error", st, f"`{src(node)}` orders an integer against None (TypeError) for this state", node)
-            return "kill"
+            return self.throw(st, "TypeError", "type-error", f"`{src(node)}` orders an integer against None (TypeError) for this state", node)
         a, b = self.as_int(lv, st), self.as_int(rv, st)
         if a is not None and b is not None:
             return a_cmp(op, a, b)
-        if (lv[0] in ("int", "sym", "bool")) and (rv[0] in ("int", "sym", "bool")):
-            return None
-        raise Unsupported(f"{self.qual}: comparison {src(node)} of {lv[0]} and {rv[0]}")
+        return None
 
     # ---- expressions ------------------------------------------------------------------------------
     def const_index(self, sl) -> Optional[int]:
@@ -605,7 +890,7 @@ class Interp:
             if isinstance(v, bool):
                 return [(("bool", v), st)]
             if isinstance(v, int):
-                return [(("int", max(-BIG, min(BIG, v))), st)] if abs(v) < BIG else [(("int", BIG if v > 0 else -BIG), st)]
+                return [(("int", max(-BIG, min(BIG, v))), st)]
             return [(("const", v), st)]
         if isinstance(e, ast.Name):
             if e.id == "self":
@@ -614,7 +899,7 @@ class Interp:
                 return [(st.locs[e.id], st)]
             if e.id in ("True", "False", "None"):
                 return [({"True": ("bool", True), "False": ("bool", False), "None": ("none",)}[e.id], st)]
-            raise Unsupported(f"{self.qual}: unknown name {e.id}")
+            return [(("top",), st)]
         if isinstance(e, ast.Attribute) and isinstance(e.value, ast.Name) and e.value.id == "self":
             a = e.attr
             if a in st.fields:
@@ -623,12 +908,33 @@ class Interp:
             r = mro_lookup(self.mod, self.cls, a)
             if r and isinstance(r[1], (ast.FunctionDef, ast.AsyncFunctionDef)):
                 return [(("meth", a), st)]
-            raise Unsupported(f"{self.qual}: attribute self.{a} is not part of the model")
+            return [(("top",), st)]
+        if isinstance(e, ast.Attribute):
+            out = []
+            for v, r in self.eval(e.value, st):
+                if r.exit:
+                    out.append((None, r))
+                elif v[0] == "dfr" and e.attr == "called" and not r.dfrs[v[1]]["stale"]:
+                    # members of the pending lists are unfired: guaranteed by the fire/detached and canceller rules
+                    out.append((("bool", r.dfrs[v[1]]["fired"] is not None), r))
+                elif v[0] == "listref":
+                    out.append((("listmeth", v[1], e.attr), r))
+                else:
+                    out.append((("top",), r))
+            return out
         if isinstance(e, (ast.List, ast.Tuple)) and not e.elts:
             return [(("newlist",), st)]
         if isinstance(e, (ast.BoolOp, ast.Compare)) or (isinstance(e, ast.UnaryOp) and isinstance(e.op, ast.Not)):
             t, f, x = self.branch(e, st)
             return [(("bool", True), s) for s in t] + [(("bool", False), s) for s in f] + [(None, s) for s in x]
+        if isinstance(e, ast.IfExp):
+            t, f, x = self.branch(e.test, st)
+            out = [(None, s) for s in x]
+            for s in t:
+                out += self.eval(e.body, s)
+            for s in f:
+                out += self.eval(e.orelse, s)
+            return out
         if isinstance(e, ast.UnaryOp) and isinstance(e.op, ast.USub):
             out = []
             for v, r in self.eval(e.operand, st):
@@ -637,9 +943,9 @@ class Interp:
                 elif v[0] == "int":
                     out.append((("int", -v[1]), r))
                 else:
-                    raise Unsupported(f"{self.qual}: {src(e)}")
+                    out.append((("top",), r))
             return out
-        if isinstance(e, ast.BinOp) and isinstance(e.op, (ast.Add, ast.Sub)):
+        if isinstance(e, ast.BinOp):
             out = []
             for lv, s1 in self.eval(e.left, st):
                 if s1.exit:
@@ -650,11 +956,12 @@ class Interp:
                         out.append((None, s2))
                         continue
                     a, b = self.as_int(lv, s2), self.as_int(rv, s2)
-                    if a is None or b is None:
+                    if a is None or b is None or not isinstance(e.op, (ast.Add, ast.Sub)):
                         if lv[0] in ("sym", "int") and rv[0] in ("sym", "int"):
                             out.append((("sym", src(e)), s2))
-                            continue
-                        raise Unsupported(f"{self.qual}: arithmetic {src(e)}")
+                        else:
+                            out.append((("top",), s2))
+                        continue
                     if isinstance(e.op, ast.Sub):
                         b = -b
                     res = a_add(a, b)
@@ -668,11 +975,19 @@ class Interp:
                 if r.exit:
                     out.append((None, r))
                     continue
-                if v[0] != "listref" or idx not in (0, -1):
-                    raise Unsupported(f"{self.qual}: subscript {src(e)}")
+                if v[0] != "listref":
+                    out.append((("top",), r))
+                    continue
                 attr = v[1]
+                if idx not in (0, -1):
+                    if self.spec.list_elems.get(attr) == "dfr":
+                        out.append((r.new_dfr(origin=("member", attr), where=attr, pristine=False), r))
+                    else:
+                        out.append((("obj", ("member", attr)), r))
+                    continue
                 if r.fields[attr][1] == 0:
-                    self.problem("container/empty-access", r, f"`{src(e)}` reads from an empty self.{attr} (IndexError)")
+                    out += [(None, x) for x in self.throw(r, "IndexError", "container/empty-access",
+                                                          f"`{src(e)}` reads from an empty self.{attr} (IndexError)")]
                     continue
                 if self.spec.list_elems.get(attr) == "dfr":
                     out.append((r.new_dfr(origin=("peek", attr, idx), where=attr, pristine=False), r))
@@ -685,13 +1000,15 @@ class Interp:
             return [(("func", e), st)]
         if isinstance(e, ast.JoinedStr):
             return [(("const", ""), st)]
+        if isinstance(e, (ast.List, ast.Tuple, ast.Set, ast.Dict, ast.ListComp, ast.GeneratorExp, ast.SetComp, ast.DictComp, ast.Starred)):
+            return [(("top",), st)]
         raise Unsupported(f"{self.qual}: expression not modelled: {src(e)[:80]}")
 
     def eval_args(self, args, st: St) -> List[Tuple[list, St]]:
         states = [([], st)]
         for a in args:
             if isinstance(a, ast.Starred):
-                raise Unsupported(f"{self.qual}: starred argument")
+                a = a.value
             nxt = []
             for vals, cur in states:
                 if vals is None:
@@ -716,6 +1033,23 @@ class Interp:
                 if d and self.is_exception_class(d.split(".")[-1], seen):
                     return True
         return False
+
+    def opaque_call(self, e: ast.Call, st: St, what: str) -> List[Tuple[tuple, St]]:
+        """A call the model knows nothing about.  If the object is consistent here, treating it as a call-out that
+        may re-enter (havoc to any invariant state) over-approximates whatever it does; otherwise the analysis
+        cannot tell whether the inconsistency is observable and gives up on this method."""
+        out = []
+        for vals, r in self.eval_args(list(e.args) + [k.value for k in e.keywords], st):
+            if vals is None:
+                out.append((None, r))
+                continue
+            bad = self.spec.invariant(r)
+            if bad:
+                raise Unsupported(f"{self.qual}: unmodelled call `{src(e)[:60]}` ({what}) while the object is inconsistent ({bad})")
+            self.notes.append(f"{self.qual}: `{src(e)[:60]}` treated as an opaque call-out")
+            for s in self.callout(r, e, check=False):
+                out.append((("top",), s))
+        return out
 
     def call(self, e: ast.Call, st: St) -> List[Tuple[tuple, St]]:
         fn = dotted(e.func)
@@ -750,14 +1084,20 @@ class Interp:
                 elif v[0] == "listref":
                     out.append((("int", r.fields[v[1]][1]), r))
                 else:
-                    raise Unsupported(f"{self.qual}: len of {v[0]}")
+                    out.append((("top",), r))
             return out
         if fn in ("list", "deque", "collections.deque") and not e.args:
             return [(("newlist",), st)]
+        if fn == "cast" and len(e.args) == 2:
+            return self.eval(e.args[1], st)
+        if fn in _PURE_FUNCS:
+            return [((("top",) if vals is not None else None), r) for vals, r in self.eval_args(e.args, st)]
         if isinstance(e.func, ast.Name) and self.is_exception_class(e.func.id):
             return [(("exc", e.func.id), st)]
         if fn and len(fn.split(".")) == 2 and fn.split(".")[0] in ("error", "defer") and (last.endswith("Error") or last.startswith("Already")):
             return [(("exc", last), st)]
+        if fn in ("Failure", "failure.Failure"):
+            return [(("obj", "failure"), st)]
         # ---- base-class initialiser
         if isinstance(e.func, ast.Attribute) and e.func.attr == "__init__":
             base = e.func.value
@@ -772,7 +1112,7 @@ class Interp:
             if isinstance(bc, ast.ClassDef) and "__init__" in methods(bc):
                 args = e.args[1:] if isinstance(base, ast.Name) else e.args
                 return self.inline(methods(bc)["__init__"], bc, args, e.keywords, st)
-            raise Unsupported(f"{self.qual}: {src(e)}")
+            return [(("none",), st)]
         # ---- method calls
         if isinstance(e.func, ast.Attribute):
             m = e.func.attr
@@ -784,8 +1124,12 @@ class Interp:
                 if recv[0] == "self":
                     res = mro_lookup(self.mod, self.cls, m)
                     if not res or not isinstance(res[1], (ast.FunctionDef, ast.AsyncFunctionDef)):
-                        raise Unsupported(f"{self.qual}: call of self.{m}")
-                    out += self.inline(res[1], res[0], e.args, e.keywords, r)
+                        out += self.opaque_call(e, r, f"self.{m} is not defined in the analysed module")
+                    elif e.keywords or any(isinstance(a, ast.Starred) for a in e.args) or self._depth >= self.MAX_DEPTH \
+                            or self.qualname(res[0], res[1]) in self._qual:
+                        out += self.opaque_call(e, r, "internal call that cannot be inlined")
+                    else:
+                        out += self.inline(res[1], res[0], e.args, e.keywords, r)
                 elif recv[0] == "listref":
                     out += self.list_call(recv[1], m, e, r)
                 elif recv[0] == "dfr" and m in ("callback", "errback"):
@@ -795,36 +1139,44 @@ class Interp:
                             continue
                         arg = vals[0] if vals else ("none",)
                         for r3 in self.fire(recv, m, arg, r2, e):
-                            out.append((("none",), r3))
+                            out.append(((("none",) if not r3.exit else None), r3))
+                elif recv[0] == "dfr" and m in ("addCallback", "addErrback", "addBoth", "addCallbacks") and r.dfrs[recv[1]]["fired"] is None \
+                        and not r.dfrs[recv[1]]["stale"]:
+                    r.dfrs[recv[1]]["pristine"] = False   # it now has callbacks: firing it runs user-visible code
+                    for vals, r2 in self.eval_args(list(e.args) + [k.value for k in e.keywords], r):
+                        out.append((None, r2) if vals is None else (recv, r2))
                 else:
-                    raise Unsupported(f"{self.qual}: call {src(e)[:80]} on {recv[0]}")
+                    out += self.opaque_call(e, r, f"method {m} of a {recv[0]} value")
             return out
-        raise Unsupported(f"{self.qual}: call not modelled: {src(e)[:80]}")
+        if isinstance(e.func, ast.Name) and st.locs.get(e.func.id, ("x",))[0] == "listmeth":
+            _, attr, m = st.locs[e.func.id]
+            return self.list_call(attr, m, e, st)
+        return self.opaque_call(e, st, "unknown function")
 
     def inline(self, func, owner, args, keywords, st: St) -> List[Tuple[tuple, St]]:
-        if self._depth >= self.MAX_DEPTH:
-            raise Unsupported(f"{self.qual}: call depth exceeded at {func.name}")
-        if keywords:
-            raise Unsupported(f"{self.qual}: keyword arguments in internal call")
         params = [a.arg for a in func.args.posonlyargs + func.args.args][1:]
         out = []
         for vals, r in self.eval_args(args, st):
             if vals is None:
                 out.append((None, r))
                 continue
-            if len(vals) != len(params):
+            nd = len(func.args.defaults)
+            if len(vals) > len(params) or len(vals) < len(params) - nd:
                 raise Unsupported(f"{self.qual}: arity of internal call {func.name}")
+            vals = vals + [("top",)] * (len(params) - len(vals))
             saved = (r.locs, r.alias)
             r.frames = r.frames + (saved,)
             r.locs = dict(zip(params, vals))
             r.alias = {}
             self._depth += 1
             self._qual.append(self.qualname(owner, func))
+            saved_catch, self._catch = self._catch, list(self._catch)
             try:
                 finals = self.block(func.body, [r])
             finally:
                 self._qual.pop()
                 self._depth -= 1
+                self._catch = saved_catch
             for f in finals:
                 locs, alias = f.frames[-1]
                 f.frames = f.frames[:-1]
@@ -835,27 +1187,31 @@ class Interp:
                     v = f.exit[1]
                     f.exit = None
                     out.append((v, f))
-                else:
+                elif f.exit[0] == "raise":
                     out.append((None, f))
+                else:
+                    raise Unsupported(f"{self.qual}: {f.exit[0]} outside a loop in {func.name}")
         return out
 
     # ---- containers ---------------------------------------------------------------------------------
-    def set_len(self, st: St, attr: str, ks: List[int]) -> List[St]:
+    def set_len(self, st: St, attr: str, ks: List[int], delta: Optional[int] = 0) -> List[St]:
         outs = []
         for i, k in enumerate(ks):
             s = st if i == len(ks) - 1 else st.copy()
             s.fields[attr] = ("list", k)
-            self.invalidate(s, attr)
+            if delta is None or s.lendelta.get(attr) is None or abs(s.lendelta.get(attr, 0) + delta) > BIG + 1:
+                s.lendelta[attr] = None   # widening: the offset from the entry length is no longer tracked
+            else:
+                s.lendelta[attr] = s.lendelta.get(attr, 0) + delta
             outs.append(s)
         return outs
 
     def list_pop(self, st: St, attr: str, end: str, discard=False) -> List[Tuple[tuple, St]]:
         n = st.fields[attr][1]
         if n == 0:
-            self.problem("container/empty-access", st, f"pop from an empty self.{attr} (IndexError)")
-            return []
+            return [(None, x) for x in self.throw(st, "IndexError", "container/empty-access", f"pop from an empty self.{attr} (IndexError)")]
         out = []
-        for s in self.set_len(st, attr, [k for k in a_add(n, -1) if k >= 0]):
+        for s in self.set_len(st, attr, [k for k in a_add(n, -1) if k >= 0], -1):
             s.add("listop", self.site(), attr, "pop_" + end, None)
             idx = 0 if end == "first" else -1
             for rec in s.dfrs.values():
@@ -870,15 +1226,15 @@ class Interp:
         return out
 
     def list_call(self, attr: str, m: str, e: ast.Call, st: St) -> List[Tuple[tuple, St]]:
-        if m not in _LIST_OPS:
-            raise Unsupported(f"{self.qual}: container method {m}")
         out = []
         for vals, r in self.eval_args(e.args, st):
             if vals is None:
                 out.append((None, r))
                 continue
             n = r.fields[attr][1]
-            if m in ("append", "appendleft") or (m == "insert" and len(vals) == 2 and vals[0] == ("int", 0)):
+            if e.keywords and m not in ("sort",):
+                out += [(("top",), s) for s in self.havoc_list(r, attr, m)]
+            elif m in ("append", "appendleft") or (m == "insert" and len(vals) == 2 and vals[0] == ("int", 0)):
                 v = vals[-1]
                 kind = "append" if m == "append" else "appendleft"
                 if v[0] == "dfr":
@@ -886,7 +1242,7 @@ class Interp:
                     if rec["where"] is not None:
                         self.problem("container/double-enqueue", r, f"a Deferred already queued in self.{rec['where']} is enqueued again")
                     rec["where"] = attr
-                for s in self.set_len(r, attr, [min(BIG, n + 1)]):
+                for s in self.set_len(r, attr, [min(BIG, n + 1)], +1):
                     s.add("listop", self.site(), attr, kind, v)
                     out.append((("none",), s))
             elif m == "popleft" or (m == "pop" and vals == [("int", 0)]):
@@ -895,11 +1251,17 @@ class Interp:
                 out += self.list_pop(r, attr, "last")
             elif m == "remove" and len(vals) == 1:
                 v = vals[0]
-                member = v[0] == "dfr" and r.dfrs[v[1]]["where"] == attr
+                member = v[0] == "dfr" and r.dfrs[v[1]]["where"] == attr and not r.dfrs[v[1]]["stale"]
+                if v[0] == "dfr" and r.dfrs[v[1]]["stale"]:
+                    # may or may not still be there
+                    out += [(None, x) for x in self.throw(r.copy(), "ValueError", "container/remove-nonmember",
+                                                           f"`{src(e)}`: the element may have left self.{attr} during the call-out (ValueError)")]
+                    member = n != 0
                 if not member or n == 0:
-                    self.problem("container/remove-nonmember", r, f"`{src(e)}` removes an element that is not known to be in self.{attr} (ValueError)")
+                    out += [(None, x) for x in self.throw(r, "ValueError", "container/remove-nonmember",
+                                                          f"`{src(e)}` removes an element that is not known to be in self.{attr} (ValueError)")]
                     continue
-                for s in self.set_len(r, attr, [k for k in a_add(n, -1) if k >= 0]):
+                for s in self.set_len(r, attr, [k for k in a_add(n, -1) if k >= 0], -1):
                     rec = s.dfrs[v[1]]
                     rec["where"] = None
                     rec["origin"] = ("removed", attr)
@@ -910,14 +1272,16 @@ class Interp:
                     if rec["where"] == attr:
                         rec["where"] = None
                         rec["origin"] = ("dropped", attr)
-                for s in self.set_len(r, attr, [0]):
+                for s in self.set_len(r, attr, [0], None):
                     s.add("listop", self.site(), attr, "clear", None)
                     out.append((("none",), s))
             elif m in ("sort", "reverse"):
                 r.add("listop", self.site(), attr, m, None)
                 out.append((("none",), r))
+            elif m in ("index", "count", "copy", "__len__", "__contains__"):
+                out.append((("top",), r))
             else:
-                raise Unsupported(f"{self.qual}: container operation {src(e)}")
+                out += [(("top",), s) for s in self.havoc_list(r, attr, m)]
         return out
 
     # ---- firing / call-outs ---------------------------------------------------------------------------
@@ -926,11 +1290,10 @@ class Interp:
         self.mark("fire/once", node)
         self.mark("fire/detached", node)
         if rec["fired"] is not None:
-            self.problem("fire/once", st, "a Deferred that has already been fired is fired again (AlreadyCalledError)", node)
-            return []
+            return self.throw(st, "AlreadyCalledError", "fire/once", "a Deferred that has already been fired is fired again (AlreadyCalledError)", node)
         if rec["stale"]:
-            self.problem("fire/once", st, "a queued Deferred is fired after a call-out without re-checking that it is still pending", node)
-            return []
+            return self.throw(st, "AlreadyCalledError", "fire/once",
+                              "a queued Deferred is fired after a call-out without re-checking that it is still pending", node)
         if rec["where"] is not None:
             self.problem("fire/detached", st, f"a Deferred is fired while it is still in self.{rec['where']} "
                          "(re-entrant code sees it queued; it will be fired a second time or its canceller fails)", node)
@@ -941,12 +1304,13 @@ class Interp:
             return [st]
         return self.callout(st, node)
 
-    def callout(self, st: St, node) -> List[St]:
-        self.mark("invariant/call-out", node)
-        bad = self.spec.invariant(st)
-        if bad:
-            self.problem("invariant/call-out", st, f"user callbacks run here while the object is inconsistent: {bad} "
-                         f"[state at the call-out: {describe_state(st.fields, st.ghost)}]", node)
+    def callout(self, st: St, node, check: bool = True) -> List[St]:
+        if check:
+            self.mark("invariant/call-out", node)
+            bad = self.spec.invariant(st)
+            if bad:
+                self.problem("invariant/call-out", st, f"user callbacks run here while the object is inconsistent: {bad} "
+                             f"[state at the call-out: {describe_state(st.fields, st.ghost)}]", node)
         st.add("callout", self.site())
         outs = []
         for fields, ghost in self.spec.states():
@@ -955,6 +1319,8 @@ class Interp:
                 s.fields[k] = v
             s.ghost = dict(ghost)
             s.active = {}
+            s.epoch = 1
+            s.lendelta = {k: 0 for k in s.lendelta}
             s.alias = {k: e for k, e in s.alias.items() if "self." not in src(e)}
             for rec in s.dfrs.values():
                 if rec["where"] is not None:
@@ -967,6 +1333,7 @@ class Interp:
 def make_state(fields: dict, ghost: dict) -> St:
     s = St()
     s.fields = dict(fields)
+    s.lendelta = {k: 0 for k, v in fields.items() if v[0] == "list"}
     s.ghost = dict(ghost)
     s.pre = describe_state(fields, ghost)
     return s
@@ -975,6 +1342,8 @@ def make_state(fields: dict, ghost: dict) -> St:
 # ---- glue shared by C06 / C07 ------------------------------------------------------------------
 def report_interp(ctx, interp):
     """Turn the interpreter's marks/problems into obligations (one per rule x site)."""
+    for n in sorted(set(interp.notes)):
+        ctx.note(n)
     bad = {}
     for p in interp.problems:
         key = (p.rule, p.qual, src(p.node) if p.node is not None else "")
